@@ -79,6 +79,9 @@ class SsbGraphMinimizer:
         self.optimize_ending_opcodes = optimize_ending_opcodes
         for rtn_id, rtn in enumerate(routine_ops):
             g = Graph(directed=True)
+            # The memo table of the common-next-vertex search is keyed by id(g): a new graph can get the id of a graph
+            # that no longer exists, whose entries must not be read for this one.
+            find_first_common_next_vertex_in_edges__clear_cache(g)
             self._graphs.append(g)
             if len(rtn) < 1:
                 # Should not happen
